@@ -6,6 +6,7 @@ mod suite01;
 mod suite05;
 mod suite06;
 mod suite07;
+mod suite13;
 
 use common::Rng;
 use std::io::{BufRead, Write};
@@ -19,6 +20,7 @@ fn exec(suite: u32, input: &[u64]) -> Vec<u64> {
         50 => suite05::exec(input),
         60 => suite06::exec(input),
         70 => suite07::exec(input),
+        130 => suite13::exec(input),
         _ => vec![998],
     });
     match r {
@@ -77,6 +79,7 @@ fn main() {
                 50 => suite05::gen(tier, &mut rng, &mut emit),
                 60 => suite06::gen(tier, &mut rng, &mut emit),
                 70 => suite07::gen(tier, &mut rng, &mut emit),
+                130 => suite13::gen(tier, &mut rng, &mut emit),
                 _ => {}
             }
         }
